@@ -896,7 +896,7 @@ impl Prop for Encodings {
         "translation_validation"
     }
     fn rule(&self) -> String {
-        "Frameworks with compact ids (ArgumentSet::new_with_labels in any declaration order, ICCMA'23 reader with duplicate attack lines, Aspartix reader; <=8 arguments quick, <=10 thorough; plus all digraphs on <=3 / <=4 arguments) x {aux_var cf/adm/complete, exp cf/complete, hybrid complete, default stable} x {plain, with range} (stable: plain only, its range methods are unimplemented by design); in 40% of the cases the same encoder object first encodes another generated framework, as the solvers do for successive connected components. One case in 40 is a framework of 11-48 arguments (sparse, optionally one argument with 6-23 attackers, optionally through the ICCMA'23 reader with repeated attack lines): there the probed sets are the CNF's own model, its <=40 one-argument neighbours, the grounded and empty sets and 4-12 generated subsets, and membership in the family is decided polynomially. The clause list recorded from the encoder is the program; for EVERY subset S of the arguments, CNF + (S as assumptions on the argument literals) is satisfiable on an independent solver instance iff S belongs to the intended family by brute force; assignment_to_extension of each such model is exactly S; with range: a model with range variables = range(S) exists, and each range variable outside range(S) is refuted; literals positive, injective, disjoint from range variables, all variables <= n_vars(). programs = CNFs validated; disagreements_checked = assumption probes compared with the oracle. Non-trivial: the family has >=2 members and some argument has >=2 attackers; distinct = (graph, presentation kind, encoder, range flag).".into()
+        "Frameworks with compact ids (ArgumentSet::new_with_labels in any declaration order, ICCMA'23 reader with duplicate attack lines, Aspartix reader; <=8 arguments quick, <=10 thorough; plus all digraphs on <=3 / <=4 arguments) x {aux_var cf/adm/complete, exp cf/complete, hybrid complete, default stable} x {plain, with range} (stable: plain only, its range methods are unimplemented by design); in 40% of the cases the same encoder object first encodes another generated framework, as the solvers do for successive connected components. One case in 40 is a framework of 11-48 arguments (sparse, optionally one argument with 6-23 attackers, optionally through the ICCMA'23 reader with repeated attack lines): there the probed sets are the CNF's own model, its <=40 one-argument neighbours, the grounded and empty sets and 4-12 generated subsets, and membership in the family is decided polynomially. An extra phase hands the encoders 8 (quick) / 62 (thorough) frameworks of more than 2^16 arguments (a motif of <=10 arguments at ids around multiples of 2^16, all other arguments isolated; two fixed, the others sampled for the seed): exact SAT search for a model outside the family on the motif, its id neighbours and 64 isolated arguments, probe sets given as unit clauses. The clause list recorded from the encoder is the program; for EVERY subset S of the arguments, CNF + (S as assumptions on the argument literals) is satisfiable on an independent solver instance iff S belongs to the intended family by brute force; assignment_to_extension of each such model is exactly S; with range: a model with range variables = range(S) exists, and each range variable outside range(S) is refuted; literals positive, injective, disjoint from range variables, all variables <= n_vars(). programs = CNFs validated; disagreements_checked = assumption probes compared with the oracle. Non-trivial: the family has >=2 members and some argument has >=2 attackers; distinct = (graph, presentation kind, encoder, range flag).".into()
     }
     fn assumptions(&self) -> Vec<String> {
         vec![
